@@ -34,6 +34,10 @@ NULLTOK = {"table": "table", "path": "path", "key": "key", "result": "result", "
            "buffer->data": "data", "data": "data", "knots": "knots"}
 GOOD = ["t0", "t1", "t2", "t3", "t4"]
 MAXSLOT = 4
+# ops whose wrapper (or the C++ operation behind it) requests heap storage through operator new: candidates for an
+# injected std::bad_alloc (`A:<k>`: the k-th request inside the call throws, on the C side and on the twin's side)
+INJECTABLE = {"init", "readfile", "readmem", "writefile", "writemem", "readkey", "writekey", "glamfit", "grideval", "permute", "convolve", "grad"}
+INJECT_AT = [0, 0, 0, 1, 1, 2, 2, 3, 4, 5, 7, 10, 14, 20, 27, 40, 90, 250]
 
 
 def empty_grideval_defined():
@@ -59,8 +63,9 @@ class SeqGen:
     ("valid handles": value wrappers and the wrappers without a `table->data` guard only see handles with an object,
     evaluation only sees loaded tables, init only sees a handle that owns nothing)."""
 
-    def __init__(self, rnd, side, stats, empty_grideval=False):
+    def __init__(self, rnd, side, stats, empty_grideval=False, inject_rate=0.09):
         self.r, self.side, self.stats, self.empty_grideval = rnd, side["wrappers"], stats, empty_grideval
+        self.inject_rate = inject_rate
 
     def checks_data(self, op):
         return "table->data" in self.side[WRAPPER_OF[op]]["nullChecked"]
@@ -98,6 +103,17 @@ class SeqGen:
                     line += " N:" + r.choice(choices)
                     ops.append(line); self.stats["null_argument_calls"] = self.stats.get("null_argument_calls", 0) + 1
                     continue
+            if words[0] in INJECTABLE and s != "unknown" and r.random() < self.inject_rate:
+                # allocation failure inside the call: whether the k-th request exists (and so whether the call fails) is not
+                # known here, so the handle's state is unknown afterwards: only calls that are defined in every state follow
+                # until a free / readsplinefitstable re-establishes it; a result slot that may have been filled is kept for
+                # the clean-up (ndsparse_destroy of a NULL result is defined)
+                line += " A:%d" % r.choice(INJECT_AT)
+                self.stats["injected_calls"] = self.stats.get("injected_calls", 0) + 1
+                if words[0] == "grideval": slots[int(words[2])] = True
+                st[h] = "unknown"; info[h] = {}
+                ops.append(line)
+                continue
             self.apply(words, h, st, info, slots)
             ops.append(line)
         for k in range(MAXSLOT):
@@ -110,6 +126,11 @@ class SeqGen:
         if s == "null":
             c += [("init", 5), ("readfile", 5), ("readmem", 4), ("free", 1)]
             c += [(o, 1) for o in ("getkey", "readkey", "writekey", "glamfit", "grideval", "convolve") if self.checks_data(o)]
+        elif s == "unknown":
+            # after an injected allocation failure: null, empty or loaded.  Defined in all three: free, the file reader
+            # (frees what is there), and the wrappers that test table->data and whose C++ operation is defined on an
+            # object without data
+            c += [("free", 4), ("readfile", 4), ("getkey", 1), ("readkey", 1), ("writekey", 1), ("convolve", 0.5)]
         elif s == "empty":
             c += [("readmem", 5), ("readfile", 3), ("glamfit", 5), ("free", 2), ("writefile", 1), ("writemem", 1), ("getkey", 1), ("readkey", 1),
                   ("get_ndim", 1), ("writekey", 0.5), ("permute", 0.5), ("convolve", 0.7)]
@@ -150,6 +171,7 @@ class SeqGen:
         if op == "permute": return "permute %d %s %d" % (h, r.choice(["valid", "valid", "dup", "big"]), seed)
         if op == "convolve":
             if s == "loaded" and inf.get("conv", 0) >= 2: return None
+            if s == "unknown": return "convolve %d %s %d" % (h, r.choice(["baddim", "negdim", "nokernel"]), seed)
             return "convolve %d %s %d" % (h, r.choice(["valid", "valid", "valid", "huge", "baddim", "negdim", "nokernel"]), seed)
         raise KeyError(op)
 
@@ -186,7 +208,7 @@ def write_script(path, seed, seqs):
 
 
 # ---------------------------------------------------------------------------------------------- running + parsing
-RLINE = re.compile(r"^R (\S+) (\d+) (\S+) C (.*?) \| T (.*?) \| (-?\d+) (-?\d+)$")
+RLINE = re.compile(r"^R (\S+) (\d+) (\S+) C (.*?) \| T (.*?) \| (-?\d+) (-?\d+) \| aC=(\d+):(\d):([0-9a-f]+) aT=(\d+):(\d):([0-9a-f]+)$")
 
 
 def split_res(txt):
@@ -225,7 +247,8 @@ def run_harness(ctx, exe, seqs, tag, timeout):
                 m = RLINE.match(l)
                 if not m: results[cur_id]["ops"][int(l.split()[2])] = {"bad": l}; continue
                 cs, cv, cdg = split_res(m.group(4)); ts, tv, tdg = split_res(m.group(5))
-                results[cur_id]["ops"][int(m.group(2))] = {"cs": cs, "cv": cv, "cdg": cdg, "ts": ts, "tv": tv, "tdg": tdg, "dC": int(m.group(6)), "dT": int(m.group(7)), "raw": l}
+                results[cur_id]["ops"][int(m.group(2))] = {"cs": cs, "cv": cv, "cdg": cdg, "ts": ts, "tv": tv, "tdg": tdg, "dC": int(m.group(6)), "dT": int(m.group(7)),
+                                                           "aC": (int(m.group(8)), int(m.group(9)), m.group(10)), "aT": (int(m.group(11)), int(m.group(12)), m.group(13)), "raw": l}
             elif l.startswith("E "):
                 w = l.split(); kv = dict(x.split("=") for x in w[2:])
                 results[cur_id]["end"] = {"sumC": int(kv["sumC"]), "sumT": int(kv["sumT"]), "liveH": int(kv["liveH"]), "liveR": int(kv["liveR"]), "lsan_bytes": lsan.get(w[1], 0)}
